@@ -1,1 +1,13 @@
+//! Reference codecs (written from the specifications, sharing no code or
+//! types with the aquatic protocol crates) and helpers for the codec engines.
+pub mod refudp;
 
+pub fn panic_text(p: &(dyn std::any::Any + Send)) -> String {
+    if let Some(s) = p.downcast_ref::<&str>() {
+        s.to_string()
+    } else if let Some(s) = p.downcast_ref::<String>() {
+        s.clone()
+    } else {
+        "non-string panic".to_string()
+    }
+}
